@@ -313,6 +313,11 @@ class QvmCpu:
                     return False
             else:
                 self.tick()
+            if self.halted:
+                # the program is over; a breakpoint condition that
+                # happens to hold for the address after the halting
+                # instruction must not turn this into a resumable stop
+                break
             for bp in self.breakpoints:
                 if bp(self):
                     self.last_breakpoint = bp
